@@ -298,6 +298,14 @@ def run(chk: Check):
             if prog["threads"] and prog["threads"][0]:
                 q = prog["threads"][0][-1]
                 chk.sample({"programme": info, "a_request": {k: q[k] for k in ("kind", "backend", "assignment", "out_format")}})
+    # tie by regeneration: _porcelain.py, _tensor_method.py, _compile_cffi.py, _compile_llvm.py are dumped statement for
+    # statement and followed by an abstract interpreter (coq/model/ConcurrencyApi.v); PROVED on every path: the shared-state
+    # steps of a call are exactly the protocol model's step sequence, the lock is held exactly around FFI.compile,
+    # TensorMethod.__call__ writes nothing shared, the cache is functools.lru_cache of TensorMethod(problem, backend)
+    # (coq/props/TIE_concurrency.v) + self-check against instrumented real calls
+    from props._tie import run_tie
+    run_tie(chk, ["concurrency"])
+
     # hammer: unsynchronised phases (one shared compiled method called with per-thread sizes; never-seen problems
     # compiled while cached calls repeat, enough of them for the kernel cache to fill and evict)
     for rep in range(3 if thorough else 1):
